@@ -1,1 +1,133 @@
-/-! C32 — property theorems (stub: nothing proved yet). -/
+import B6.Model.GeoJSON
+import B6.Lemmas.GeoJSON
+/-!
+# C32 — GeoJSON geometry round-trips and imports faithfully
+
+Theorems about `B6.Model.GeoJSON` (geojson/geojson.go marshal / unmarshal structure, `AddFeatures.FillFromGeoJSON`
+and `AddFeatures.Apply` of ingest/change.go); coordinates are opaque atoms.
+
+* `geojson_struct_roundtrip`       — every geometry of the six types, any sizes: `unmarshal (marshal g) = g`
+  (nesting, order and the lng/lat order of positions preserved).
+* `geojson_doc_roundtrip`          — the same through `geojson.Unmarshal` for bare geometries, features and feature
+  collections (repaired code); `unmarshal_multilinestring_counterexample` — the `type` switch before
+  fixes/C32-unmarshal-multilinestring.patch rejected a bare MultiLineString.
+* `import_one_per_feature_statement` — the full demand: every feature of a collection of well-shaped geometries is
+  in the world exactly once, under its index, with its geometry and properties.
+  **False on the code**: `import_multipoint_counterexample`, `import_multilinestring_counterexample` (no case in
+  `fillFromFeature`: the feature is silently dropped) and `import_reserved_key_counterexample` (a LineString with a
+  property called `point` fails path validation and aborts the import).
+* `import_one_per_feature_partial` — the statement holds for every collection without those two classes
+  (`importable`, `¬ reservedClash` — the predicates the driver uses for `class=multi-geometry-dropped` and
+  `class=reserved-property-key`).
+-/
+namespace B6.Props.C32
+open B6.Model.GeoJSON B6.Lemmas.GeoJSON
+
+/-! ## marshal / unmarshal -/
+
+/-- **C32, round trip.** -/
+theorem geojson_struct_roundtrip {ν : Type} (g : Geom ν) : unmarshalGeometry (marshalGeometry g) = some g := by
+  have hc : ∀ c : Coord ν, parseCoord (coordJ c) = some c := parseCoord_coordJ
+  have h1 : ∀ cs : List (Coord ν), parseList parseCoord (listJ coordJ cs) = some cs :=
+    parseList_listJ coordJ parseCoord hc
+  have h2 : ∀ ls : List (List (Coord ν)), parseList (parseList parseCoord) (listJ (listJ coordJ) ls) = some ls :=
+    parseList_listJ (listJ coordJ) (parseList parseCoord) h1
+  have h3 : ∀ ps : List (List (List (Coord ν))),
+      parseList (parseList (parseList parseCoord)) (listJ (listJ (listJ coordJ)) ps) = some ps :=
+    parseList_listJ (listJ (listJ coordJ)) (parseList (parseList parseCoord)) h2
+  cases g <;> simp [unmarshalGeometry, marshalGeometry, Geom.typeName, hc, h1, h2, h3]
+
+example : marshalGeometry (.polygon [[⟨1, 2⟩, ⟨3, 4⟩, ⟨5, 6⟩, ⟨1, 2⟩]] : Geom Nat) =
+    { typ := "Polygon", coords := .arr [.arr [.arr [.num 2, .num 1], .arr [.num 4, .num 3], .arr [.num 6, .num 5], .arr [.num 2, .num 1]]] } := rfl
+
+theorem unmarshalFeature_marshalFeature {ν : Type} (f : Feature ν) : unmarshalFeature (marshalFeature f) = some f := by
+  simp [unmarshalFeature, marshalFeature, geojson_struct_roundtrip]
+
+theorem typeName_mem {ν : Type} (g : Geom ν) : (marshalGeometry g).typ ∈ topLevelGeometryTypes := by
+  cases g <;> simp [marshalGeometry, Geom.typeName, topLevelGeometryTypes]
+
+/-- **C32, round trip through `geojson.Unmarshal`** (geometry, feature, feature collection). -/
+theorem geojson_doc_roundtrip {ν : Type} (d : Doc ν) : unmarshalDoc (marshalDoc d) = some d := by
+  cases d with
+  | geometry g => simp [unmarshalDoc, unmarshalDocWith, marshalDoc, typeName_mem, geojson_struct_roundtrip]
+  | feature f => simp [unmarshalDoc, unmarshalDocWith, marshalDoc, unmarshalFeature_marshalFeature]
+  | collection fs =>
+    simp [unmarshalDoc, unmarshalDocWith, marshalDoc,
+      mapOpt_map marshalFeature unmarshalFeature unmarshalFeature_marshalFeature fs]
+
+example : marshalDoc (.collection [{ geom := .multiPoint [⟨1, 2⟩], props := [("a", "b")] }] : Doc Nat) =
+    .collection [{ geom := { typ := "MultiPoint", coords := .arr [.arr [.num 2, .num 1]] }, props := [("a", "b")] }] := rfl
+
+/-- before the repair a bare MultiLineString did not come back -/
+theorem unmarshal_multilinestring_counterexample :
+    (unmarshalDocWith topLevelGeometryTypesOld
+      (marshalDoc (.geometry (.multiLineString [[⟨1, 2⟩, ⟨3, 4⟩]]) : Doc Nat))).isNone = true := by decide
+
+/-! ## import -/
+
+/-- the property as stated: for every collection of well-shaped geometries (line strings of two or more positions,
+no empty ring) with map-like properties, the import adds one feature per GeoJSON feature — found under the feature's
+index, exactly once, with the same geometry and the same properties. -/
+def import_one_per_feature_statement : Prop :=
+  ∀ (fs : List (Feature Int)), (∀ f ∈ fs, wellShaped f.geom = true ∧ (f.props.map (·.1)).Nodup) →
+    ∃ w, importCollection fs = some w ∧ w.length = fs.length ∧
+      ∀ (i : Nat) (h : i < fs.length), importedFaithfully w fs[i] i = true
+
+/-- a MultiPoint and a Point: one feature of two is imported (DESIGN §7) -/
+def exMultiPoint : List (Feature Int) :=
+  [{ geom := .multiPoint [⟨515000000, 5000000⟩, ⟨512500000, 2500000⟩], props := [("a", "b")] },
+   { geom := .point ⟨515000000, 5000000⟩, props := [("a", "b")] }]
+
+theorem import_multipoint_counterexample : ¬ import_one_per_feature_statement := by
+  intro h
+  obtain ⟨w, hw, hl, _⟩ := h exMultiPoint (by decide)
+  have h1 : (importCollection exMultiPoint).map (·.length) = some 1 := by decide
+  rw [hw] at h1
+  simp only [Option.map_some, Option.some.injEq] at h1
+  rw [h1] at hl
+  exact absurd hl (by decide)
+
+def exMultiLineString : List (Feature Int) :=
+  [{ geom := .multiLineString [[⟨515000000, 5000000⟩, ⟨512500000, 2500000⟩]], props := [] }]
+
+theorem import_multilinestring_counterexample :
+    (importCollection exMultiLineString).map (·.length) = some 0 ∧ exMultiLineString.length = 1 := by decide
+
+/-- a LineString with a property named `point`: validation sees a 1-point path and the import stops -/
+def exReservedKey : List (Feature Int) :=
+  [{ geom := .lineString [⟨20000000, 10000000⟩, ⟨40000000, 30000000⟩], props := [("point", "zz")] }]
+
+theorem import_reserved_key_counterexample :
+    (importCollection exReservedKey).map (·.length) = some 0 ∧ exReservedKey.length = 1 ∧
+      (∀ f ∈ exReservedKey, importable f.geom = true ∧ wellShaped f.geom = true) := by decide
+
+/-- **C32, import (partial).** For every collection (any atoms for coordinates) whose features are well shaped,
+importable (no MultiPoint / MultiLineString) and free of a reserved property key, the import adds exactly one
+feature per GeoJSON feature, under its index, with the same geometry (rings without their closing position) and
+the same properties. -/
+theorem import_one_per_feature_partial {ν : Type} [DecidableEq ν] (fs : List (Feature ν))
+    (hshape : ∀ f ∈ fs, wellShaped f.geom = true ∧ (f.props.map (·.1)).Nodup)
+    (hclass : ∀ f ∈ fs, importable f.geom = true ∧ reservedClash f = false) :
+    ∃ w, importCollection fs = some w ∧ w.length = fs.length ∧
+      ∀ (i : Nat) (h : i < fs.length), importedFaithfully w fs[i] i = true := by
+  have hgood : ∀ f ∈ fs, Good f := fun f hf =>
+    ⟨(hshape f hf).1, (hclass f hf).1, (hclass f hf).2, (hshape f hf).2⟩
+  refine ⟨imp fs 0, ?_, imp_length fs 0, fun i h => imp_faithful fs i h hgood⟩
+  simp [importCollection, fillFromGeoJSON, fillFrom_good fs 0 hgood, applyAll_good fs 0 hgood]
+
+/-- the hypotheses are satisfiable by a collection with all four importable kinds, a hole and properties -/
+def exGood : List (Feature Int) :=
+  [{ geom := .point ⟨515000000, -1250000⟩, props := [("name", "x")] },
+   { geom := .lineString [⟨1, 2⟩, ⟨3, 4⟩, ⟨1, 2⟩], props := [("bridge", "yes"), ("name", "y")] },
+   { geom := .polygon [[⟨0, 0⟩, ⟨0, 10⟩, ⟨10, 10⟩, ⟨0, 0⟩], [⟨2, 4⟩, ⟨4, 6⟩, ⟨2, 6⟩, ⟨2, 4⟩]], props := [("point", "p")] },
+   { geom := .multiPolygon [[[⟨0, 0⟩, ⟨0, 1⟩, ⟨1, 1⟩]], [[⟨5, 5⟩, ⟨5, 6⟩, ⟨6, 6⟩, ⟨5, 5⟩]]], props := [] }]
+
+example : (∀ f ∈ exGood, wellShaped f.geom = true ∧ (f.props.map (·.1)).Nodup) ∧
+    (∀ f ∈ exGood, importable f.geom = true ∧ reservedClash f = false) := by decide
+
+example : (importCollection exGood).map (fun w => w.map fun x => (x.ftype, x.id, observe x)) =
+    some [(.point, 0, .point ⟨515000000, -1250000⟩), (.path, 1, .path [⟨1, 2⟩, ⟨3, 4⟩, ⟨1, 2⟩]),
+          (.area, 2, .area [[[⟨0, 0⟩, ⟨0, 10⟩, ⟨10, 10⟩], [⟨2, 4⟩, ⟨4, 6⟩, ⟨2, 6⟩]]]),
+          (.area, 3, .area [[[⟨0, 0⟩, ⟨0, 1⟩, ⟨1, 1⟩]], [[⟨5, 5⟩, ⟨5, 6⟩, ⟨6, 6⟩]]])] := by decide
+
+end B6.Props.C32
